@@ -37,6 +37,7 @@ class Run:
         self.samples = []
         self.rejections = []          # (trace, rejection-list)
         self.drift = []               # Layer B (mechanism model) disagreements with the code
+        self.event_counts = {}        # recorded events by kind
         self.violations = []          # replay paths
         self.known = []               # KNOWN-FINDING lines
         self.notes = []
@@ -92,6 +93,11 @@ class Run:
         t = time.time()
         traces = replay_mod.replay(cases, workers=self.workers)
         self.extra["replay_s"] = round(self.extra.get("replay_s", 0) + time.time() - t, 1)
+        for t in traces:          # which kinds of events were actually exercised (non-vacuity of the exploration)
+            for e in t.get("evs", []):
+                k = e.get("op", "?") + ("/" + str(e["kind"]) if e.get("kind") not in (None, "-") else "") + \
+                    ("/" + str(e["ambient"]) if e.get("ambient") not in (None, "none") else "")
+                self.event_counts[k] = self.event_counts.get(k, 0) + 1
         bad = [x for x in traces if "harness_exc" in x]
         if bad:
             raise tlc.MachineryError("harness failure: " + bad[0]["harness_exc"] + "\n" + bad[0].get("harness_tb", ""))
@@ -169,6 +175,7 @@ class Run:
             "exhaustive": self.exhaustive,
             "tlc_runs": self.mc_runs,
             "known_findings_reported": self.known,
+            "recorded_events_by_kind": dict(sorted(self.event_counts.items())),
             "layer_b": {"status": "drifted" if self.drift else "bound (no disagreement on this run)",
                         "disagreements": len(self.drift), "examples": self.drift[:3]},
             "notes": self.notes,
